@@ -190,7 +190,21 @@ func init() {
 		defer cancel()
 		xs := seqInts(1, c.N)
 		pred := func(x int) bool { return mix(x, c.FSeed)%3 != 0 }
-		l, r := pipe.Partition(ctx, pipe.Seq(xs...), pipe.Pure(pred))
+		var in <-chan int = pipe.Seq(xs...)
+		var late chan int
+		if c.Arg == "late-producer" {
+			// the input is still empty when the stage is built and is filled afterwards: the halves follow the input's
+			// CAPACITY, whatever it holds at that moment
+			late = make(chan int, len(xs))
+			in = late
+		}
+		l, r := pipe.Partition(ctx, in, pipe.Pure(pred))
+		if late != nil {
+			for _, x := range xs {
+				late <- x
+			}
+			close(late)
+		}
 		var ls, rs []int
 		if c.Mode == "right-first" {
 			rs = pipe.ToSeq(r)
@@ -288,6 +302,7 @@ func progsC05(t *testing.T) {
 	for _, n := range thresholds(0, common.Pick(5000, 70000)) {
 		for _, mode := range []string{"left-first", "right-first"} {
 			runProg(t, "C05", &caseT{Stage: "prog/partition-sequential", N: n, Cap: n, Mode: mode, FSeed: uint64(n)})
+			runProg(t, "C05", &caseT{Stage: "prog/partition-sequential", N: n, Cap: n, Mode: mode, FSeed: uint64(n), Arg: "late-producer"})
 		}
 		for _, v := range []string{"", "fork"} {
 			runProg(t, "C05", &caseT{Stage: "prog/chain-errors-first", N: n, Cap: n, FSeed: uint64(n) + 5, Comment: v})
@@ -561,6 +576,7 @@ func progsC09(t *testing.T) {
 	progsGoexit(t, "C09")
 	progsPreCancel(t, "C09")
 	progsSlow(t, "C09")
+	progsSlowErrors(t, "C09", []string{"fork.Map", "fork.FMap"})
 	typedProgs(t, "C09")
 	for _, par := range widePars() {
 		for _, n := range []int{par, 2*par + 1, 4*par + 40, 1000} {
@@ -1492,4 +1508,5 @@ func progsC12Shared(t *testing.T) {
 
 func progsC07(t *testing.T) {
 	progsGoexit(t, "C07")
+	progsSlowErrors(t, "C07", []string{"Map", "FMap", "Emit"})
 }
